@@ -629,17 +629,18 @@ bool expression_t::equal(const expression_t& e) const
         return false;
     }
 
+    if (get_size() != e.get_size() || data->kind != e.data->kind ||
+        !std::visit(ValueTypeEquality{}, data->value, e.data->value) || data->symbol != e.data->symbol) {
+        return false;
+    }
+
     // The text of a constant and of a list depends on the type of the node: `1` and `true` hold the same value,
-    // the initialiser `{ a, b }` and the list `a, b` of a query the same children.
+    // the initialiser `{ a, b }` and the list `a, b` of a query the same children. (Both nodes are of the same
+    // kind here: the type of a node of another kind is not asked whether it is an integer.)
     if (data->kind == CONSTANT && data->type.is_integer() != e.data->type.is_integer()) {
         return false;
     }
     if (data->kind == LIST && is_initialiser_list(*this) != is_initialiser_list(e)) {
-        return false;
-    }
-
-    if (get_size() != e.get_size() || data->kind != e.data->kind ||
-        !std::visit(ValueTypeEquality{}, data->value, e.data->value) || data->symbol != e.data->symbol) {
         return false;
     }
 
